@@ -86,11 +86,14 @@ ADDED3 = {
            'value (context) of a function node is built for that node, @overload declarations only ride along.',
     'C19': 'FolderIO.walk pruning: exactly the entries of removed folders are deleted from os.walk\'s list, others kept '
            'in order (all subsets of <= 3 sub-folders; replayed on a real directory); search_in_file_ios: exactly the '
-           'passing files in scan order until a limit.',
+           'passing files in scan order until a limit. The modules between Project.search and the file list hold no '
+           'process-global mutable store (ignore rules and file list are recomputed from the disk on every search; '
+           'structural inventory, back end ast).',
     'C20': 'Importer._sys_path_with_modifications: the memoised effective path is never mutated in place (ownership '
            'frame obligation); detected sys.path edits are appended for the lookup only. Project.__init__: every '
            'setting is stored as given (sys_path / added_sys_path entry by entry in order as str, environment_path as '
-           'str, both flags, absolute path) - what save() dumps and load() = cls(**data) restores; two argument shapes.',
+           'str, both flags, absolute path) - what save() dumps and load() = cls(**data) restores; two argument shapes. Script.__init__ (region): the '
+           'script_path handed to the inference state is absolute for every notation of the path argument.',
 }
 LIBRARY_NOTE = (' A contract whose function can no longer be brought into the subset is not silently undecided: its '
                 'executable form is evaluated on the real function over its witness library, a failing input is a '
